@@ -24,11 +24,14 @@ size_t rtosc_avmessage(char                  *buffer,
     STACKALLOC(char, argstr,val_max+1);
 
     int i;
+    int nvals = 0; // rtosc_amessage reads no value for T, F, N and I
     for(i = 0; i < val_max; ++i)
     {
         rtosc_arg_val_t av_buffer;
         const rtosc_arg_val_t* cur = rtosc_arg_val_itr_get(&itr, &av_buffer);
-        vals[i] = cur->val;
+        if(cur->type != 'T' && cur->type != 'F' &&
+           cur->type != 'N' && cur->type != 'I')
+            vals[nvals++] = cur->val;
         argstr[i] = cur->type;
         rtosc_arg_val_itr_next(&itr);
     }
